@@ -50,11 +50,19 @@ func (t *brokerPublishTransactionBase) regack(snRegack *snPkts1.Regack, newState
 		t.log.Debug("Unexpected packet in %d: %v", t.State, snRegack)
 		return nil
 	}
+	snRegister := t.Data.(*snPkts1.Register)
+	// A REGACK for another TopicID (e.g. a duplicate of the REGACK of
+	// an earlier REGISTER with the same MsgID) does not acknowledge
+	// this REGISTER. A refusal without TopicID is taken as is.
+	if snRegack.TopicID != snRegister.TopicID &&
+		(snRegack.ReturnCode == snPkts1.RC_ACCEPTED || snRegack.TopicID != 0) {
+		t.log.Debug("REGACK for another TopicID ignored: %v", snRegack)
+		return nil
+	}
 	if snRegack.ReturnCode != snPkts1.RC_ACCEPTED {
 		t.Fail(fmt.Errorf("REGACK return code: %d", snRegack.ReturnCode))
 		return nil
 	}
-	snRegister := t.Data.(*snPkts1.Register)
 	t.handler.registeredTopics.Store(snRegister.TopicID, snRegister.TopicName)
 	// The client knows the TopicID now, whatever happens to a subscription
 	// which it may have been allocated for.
